@@ -43,7 +43,7 @@ theorem dispNm16 : dispN (-16) = W64 - 16 := by decide
 
 /-- symbolic execution of a regenerated small-path program -/
 macro "asm_exec" "[" ts:Lean.Parser.Tactic.simpLemma,* "]" : tactic =>
-  `(tactic| simp only [block, List.lookup, String.reduceBEq, Option.getD_some, run, step, init, setR, setX, addr,
+  `(tactic| simp only [block, List.lookup, String.reduceBEq, Option.getD_some, List.map, List.flatten, List.append_nil, List.cons_append, List.nil_append, run, step, init, setR, setX, addr,
       and_self_eq_zero, reduceCtorEq, if_false, if_true, ite_self, Bool.false_eq_true, List.nil_append, Nat.mod_mod, decide_true, decide_false, Option.map_none, Option.map_some, $ts,*])
 
 set_option maxRecDepth 8000 in
